@@ -188,12 +188,18 @@ class CachingLoaderMixin(ABC, _CachingLoaderProtocol):
 
         # Args take priority over context variables.
         with suppress(KeyError):
-            return f"{args[self.namespace_key]}/{name}"
+            return self._namespaced(args[self.namespace_key], name)
 
         if context is None:
             return name
 
         try:
-            return f"{context.globals[self.namespace_key]}/{name}"
+            return self._namespaced(context.globals[self.namespace_key], name)
         except KeyError:
             return name
+
+    def _namespaced(self, namespace: object, name: str) -> str:
+        # Names can contain slashes too. Escaping them in the namespace keeps
+        # "a" + "b/c" and "a/b" + "c" apart.
+        namespace = str(namespace).replace("%", "%25").replace("/", "%2F")
+        return f"{namespace}/{name}"
